@@ -38,6 +38,8 @@ class NpRecorder:
         self._real = real
         self.cos_tab, self.sin_tab = {}, {}
         self.traces = []        # per ray: counts of successive iterations
+        self.wl = None          # the list warnings.catch_warnings(record=True) appends to
+        self.warn_marks = []    # number of warnings emitted before each ray starts
 
     def __getattr__(self, name):
         return getattr(self._real, name)
@@ -46,6 +48,7 @@ class NpRecorder:
         v = self._real.cos(x, *a, **k)
         self.cos_tab.setdefault(_bits(x), (float(x), float(v)))
         self.traces.append([])          # a ray starts with its np.cos call
+        self.warn_marks.append(len(self.wl) if self.wl is not None else 0)
         return v
 
     def sin(self, x, *a, **k):
@@ -96,6 +99,7 @@ def run_impl(c, model=None, record=True):
     try:
         with warnings.catch_warnings(record=True) as wl:
             warnings.simplefilter("always")
+            rec.wl = wl
             try:
                 smp = np.array(c["sample"], dtype=float)
                 if c["mode"] == "and":
@@ -108,6 +112,11 @@ def run_impl(c, model=None, record=True):
             except Exception as e:  # noqa
                 out["err"] = type(e).__name__
         out["nwarn"] = sum(1 for w in wl if issubclass(w.category, UserWarning) and WARN_TEXT in str(w.message))
+        if record:
+            # which ray emitted a warning (observed: the count of recorded warnings grows while that ray is searched)
+            marks = rec.warn_marks + [len(wl)]
+            out["ray_warned"] = [any(issubclass(w.category, UserWarning) and WARN_TEXT in str(w.message) for w in wl[marks[i]:marks[i + 1]])
+                                 for i in range(len(rec.warn_marks))]
     finally:
         vc.np = old
     return out
@@ -143,7 +152,7 @@ def gen_sample(rng, nprng, n):
 def gen_cases(ctx):
     rng, nprng = ctx.rng, ctx.np_rng(0)
     cases = []
-    n_samples = ctx.n(90, 1100)
+    n_samples = ctx.n(150, 1500)
     for si in range(n_samples):
         r = rng.random()
         nmax = ctx.n(5000, 12000)
@@ -260,7 +269,7 @@ def thresholds(mode, smp, theta_deg):
 def oracle(c, r=None):
     """None if the property holds on this configuration, else (signature, message)."""
     if r is None:
-        r = run_impl(c, record=False)
+        r = run_impl(c)
     cls = "AndContour" if c["mode"] == "and" else "OrContour"
     smp = np.asarray(c["sample"], dtype=float)
     x, y = smp[:, 0], smp[:, 1]
@@ -277,24 +286,27 @@ def oracle(c, r=None):
         return ({"class": cls, "clause": "exception"}, "%s raised %s" % (cls, r["err"]))
     pts = r["coords"]
     warned = r["nwarn"] > 0
+    ray_warned = r.get("ray_warned")
+    if ray_warned is not None and len(ray_warned) != len(thetas):
+        ray_warned = None
 
     def count_at(p):
         if c["mode"] == "and":
             return int(np.sum((x > p[0]) & (y > p[1])))
         return int(np.sum((x > p[0]) | (y > p[1])))
 
-    def judge(p, theta, what):
+    def judge(p, theta, what, j):
         d = math.hypot(p[0], p[1])
         if not (d > 0) or not math.isfinite(d):
             return ({"class": cls, "clause": "on-ray"}, "%s %r is not at a positive finite distance from the origin" % (what, p))
         ang = math.degrees(math.atan2(p[1], p[0]))
         if abs(ang - float(theta)) > 1e-7:
             return ({"class": cls, "clause": "on-ray"}, "%s %r lies at %.9g deg, not on the ray of %.9g deg" % (what, p, ang, float(theta)))
-        if not warned:
+        if not (ray_warned[j] if ray_warned is not None else warned):
             pe = count_at(p) / n
             if abs(pe - alpha) / alpha > allowed * (1 + 1e-9) + 1e-13:
                 return ({"class": cls, "clause": "exceedance"},
-                        "%s %r (theta=%.6g): %s exceedance fraction %d/%d = %.6g differs from alpha=%.6g by %.4g*alpha > allowed_error=%.4g, no warning was emitted" % (
+                        "%s %r (theta=%.6g): %s exceedance fraction %d/%d = %.6g differs from alpha=%.6g by %.4g*alpha > allowed_error=%.4g, no warning was emitted for this ray" % (
                             what, p, float(theta), c["mode"].upper(), count_at(p), n, pe, alpha, abs(pe - alpha) / alpha, allowed))
         return None
 
@@ -304,7 +316,7 @@ def oracle(c, r=None):
         if pts[-1] != (0.0, 0.0):
             return ({"class": cls, "clause": "closure"}, "the contour does not end in (0, 0) but in %r" % (pts[-1],))
         for i, th in enumerate(thetas):
-            o = judge(pts[i], th, "point %d" % i)
+            o = judge(pts[i], th, "point %d" % i, i)
             if o:
                 return o
         return None
@@ -324,18 +336,18 @@ def oracle(c, r=None):
             j += 1
         if j == len(thetas):
             return ({"class": cls, "clause": "on-ray"}, "point %d %r (%.9g deg) is on none of the remaining rays (order kept?)" % (k, p, ang))
-        o = judge(p, thetas[j], "point %d" % k)
+        o = judge(p, thetas[j], "point %d" % k, j)
         if o:
             return o
         if not (p[0] < xmax and p[1] < ymax):
             return ({"class": cls, "clause": "range-filter"}, "point %d %r is beyond 1.1 x the sample maximum (%r, %r) but was kept" % (k, p, xmax, ymax))
         kept_idx.append(j)
         j += 1
-    if not warned:
+    if not warned or ray_warned is not None:
         # a ray whose every admissible point is well inside the range must not be dropped
         lo_c, hi_c = alpha * n * (1 - allowed), alpha * n * (1 + allowed)
         for jj, th in enumerate(thetas):
-            if jj in kept_idx:
+            if jj in kept_idx or (ray_warned is not None and ray_warned[jj]):
                 continue
             t = np.sort(thresholds("or", smp, float(th)))[::-1]
             c_lo = max(int(math.ceil(lo_c - 1e-9)), 1)
@@ -408,7 +420,7 @@ def real_model_cases(ctx):
         np.random.seed(seed % (2 ** 32))      # marginal_icdf of the conditional variable draws from the global generator
         c = {"sid": None, "kind": "virocon-model", "sample": smp, "alpha": ctx.rng.choice([0.1, 0.05, 0.02]), "deg_step": ctx.rng.choice([5, 10, 15]),
              "allowed_error": ctx.rng.choice([0.05, 0.1]), "xm": None, "ym": None, "mode": "and" if k % 2 == 0 else "or", "lowest": 10, "highest": 80}
-        out.append((c, run_impl(c, model=model, record=False)))
+        out.append((c, run_impl(c, model=model)))
     return out
 
 
@@ -494,8 +506,7 @@ def run(ctx):
     for c, r in stream:
         if found >= 8:
             break
-        if r["nwarn"] > 0:
-            unjudged += 1      # the exceedance clause is not judged when the warning was emitted
+        unjudged += sum(r.get("ray_warned", [])) if "ray_warned" in r else (len(r["rec"].traces) if r["nwarn"] else 0)
         o = oracle(c, r)
         if o is None:
             continue
@@ -507,7 +518,7 @@ def run(ctx):
         o2 = (oracle(small) if c["xm"] is not None else None) or o
         if ctx.violation(o2[0], o2[1], to_replay(small)):
             found += 1
-    ctx.notes["contours_with_warning_exceedance_not_judged"] = unjudged
+    ctx.notes["rays_with_warning_exceedance_not_judged"] = unjudged
     ctx.cov["evaluations"] += len(stream) - len(cases)
     ctx.cov["rule"] = ("non-negative samples (sea-state like Weibull/log-normal, log-normal pairs, exponential, wind-wave, exact zeros, values rounded to 0.1, observations "
                        "planted exactly on the first probe of some rays; n 200..5000 quick / ..12000 thorough) x alpha in [1e-3, 0.2] x deg_step in [1, 30] (int and float) x "
